@@ -113,7 +113,6 @@ type caseSpec struct {
 	RestartK int // blocks delivered before the restart
 	Zone     int // seconds east of UTC for the other-zone node
 	Clocks   []int64
-	Perms    [][]int // explicit application orders for the replay of the cache-hit loop (indices into the sorted value list)
 
 	byAddr map[common.Address]int
 }
@@ -584,7 +583,12 @@ func revalidatable(st state.IdentityState) bool {
 // A -> B -> C -> (somebody) where A and B are ceremony candidates whose prior
 // status is Candidate, Suspended or Zombie (the statuses whose re-validation
 // triggers removal of a transitive delegation).
-func delegationChains(s *caseSpec) (longest int, sensitive []string) {
+type chainShape struct {
+	A, B int
+	Desc string
+}
+
+func delegationChains(s *caseSpec) (longest int, sensitive []chainShape) {
 	next := func(a common.Address) *common.Address {
 		i, ok := s.byAddr[a]
 		if !ok {
@@ -621,7 +625,7 @@ func delegationChains(s *caseSpec) (longest int, sensitive []string) {
 			continue
 		}
 		if next(*effectiveDelegatee(b)) != nil {
-			sensitive = append(sensitive, fmt.Sprintf("id%d->id%d->%s->%s", i, bi, s.name(*effectiveDelegatee(b)), s.name(*next(*effectiveDelegatee(b)))))
+			sensitive = append(sensitive, chainShape{A: i, B: bi, Desc: fmt.Sprintf("id%d->id%d->%s->%s", i, bi, s.name(*effectiveDelegatee(b)), s.name(*next(*effectiveDelegatee(b))))})
 		}
 	}
 	return longest, sensitive
